@@ -129,6 +129,7 @@ type client struct {
 	readerDone   bool
 	idx          int
 	finSent      bool
+	rstLate      bool
 }
 
 var me = [4]byte{127, 0, 0, 1}
@@ -182,9 +183,18 @@ func (c *client) next() *Seg {
 		c.finSent = true
 		return &s
 	case 4:
-		c.phase = 99
+		c.phase = 5
 		s := c.seg(fACK, nil)
 		s.Seq++ // after our FIN
+		return &s
+	case 5:
+		c.phase = 99
+		if !c.rstLate {
+			return nil
+		}
+		// a late RST: in TIME-WAIT / CLOSE-WAIT it removes the State from the table
+		s := c.seg(fRST, nil)
+		s.Seq++
 		return &s
 	}
 	return nil
@@ -196,6 +206,8 @@ func parseOut(fr []byte) (flags int, seq, ack uint32, ipid int, ok bool) {
 	}
 	return int(fr[47]), binary.BigEndian.Uint32(fr[38:42]), binary.BigEndian.Uint32(fr[42:46]), int(binary.BigEndian.Uint16(fr[18:20])), true
 }
+
+var removed, removedWhileOthersActive int
 
 func runCase(r *hx.Rand, nconn int, tier string) ([]Step, string) {
 	cap := &capture{}
@@ -257,6 +269,7 @@ func runCase(r *hx.Rand, nconn int, tier string) ([]Step, string) {
 		c.pshLast = r.Chance(2, 3)
 		c.badAck = r.Chance(1, 15)
 		c.rstEarly = r.Chance(1, 20)
+		c.rstLate = r.Chance(1, 2)
 		clients = append(clients, c)
 		arp = append(arp, canary.ARPEntry{IP: net.IPv4(c.sip[0], c.sip[1], c.sip[2], c.sip[3]), HardwareAddress: macOf(c.sip), Interface: "lo"})
 	}
@@ -272,8 +285,24 @@ func runCase(r *hx.Rand, nconn int, tier string) ([]Step, string) {
 	var steps []Step
 	nextKey := uint(1)
 	active := append([]*client(nil), clients...)
+	// schedule bias: in a third of the cases every connection is opened first, then the
+	// oldest one is run to completion (and possibly removed) while the others continue
+	drainFirst := r.Chance(1, 3)
 	for len(active) > 0 {
 		ci := r.Intn(len(active))
+		if drainFirst {
+			allOpen := true
+			for i, a := range active {
+				if a.phase == 0 {
+					allOpen = false
+					ci = i
+					break
+				}
+			}
+			if allOpen && active[0] == clients[0] && r.Chance(9, 10) {
+				ci = 0
+			}
+		}
 		c := active[ci]
 		s := c.next()
 		if s == nil {
@@ -282,6 +311,7 @@ func runCase(r *hx.Rand, nconn int, tier string) ([]Step, string) {
 		}
 		st := Step{Kind: "seg", Seg: s}
 		var crash string
+		before := v.StateCount()
 		func() {
 			defer func() {
 				if rec := recover(); rec != nil {
@@ -293,6 +323,12 @@ func runCase(r *hx.Rand, nconn int, tier string) ([]Step, string) {
 		if crash != "" {
 			steps = append(steps, st)
 			return steps, crash
+		}
+		if v.StateCount() < before {
+			removed++
+			if len(active) > 1 {
+				removedWhileOthersActive++
+			}
 		}
 		expectReader := c.established && !c.readerDone && !decoded[c.dport] && (s.Flags&fPSH != 0 || s.Flags&fFIN != 0)
 		var evs []event.Event
@@ -432,5 +468,7 @@ func main() {
 		}
 		cases = append(cases, hx.Case{ID: i, Kind: "tcp", Input: steps, Obs: nil, Crash: crash, Coq: coqCase(i, steps)})
 	}
+	dist["state-removed"] = removed
+	dist["state-removed-while-others-active"] = removedWhileOthersActive
 	hx.Write(o, "C14", "tcp", "From HT Require Import Common.Bytes C14.Model C14.Check.", "case", cases, dist, nil, 40)
 }
